@@ -7,6 +7,10 @@ Inert unless PYTASK_VERIF=1.  When active it numbers *observation points*
   `…_process_report`, `…_log_end` and `pytask_unconfigure` (outermost wrappers, exit also on an exception), and
 * SQLAlchemy `before_commit` / `after_commit` of every session made by `pytask.DatabaseSession`
   (labelled with the table of the row being written: `state` or `runtime`), and
+* the opening of a database connection (`db.connect`: from then on the SQLite file exists, possibly with 0 bytes) and every
+  `CREATE TABLE` / `CREATE INDEX` / `DROP` / `ALTER` statement (`ddl.before` / `ddl.after`, labelled with the table): the
+  start-up of the database in `create_database`, before the first task — active from the import of this plugin, i.e. from
+  the creation of the plugin manager, before the configuration is parsed;
 * SQLAlchemy `before_cursor_execute` / `after_cursor_execute` of every INSERT / UPDATE / DELETE statement on those tables
   (`stmt.before` / `stmt.after`): a kill between two statements of one transaction — harmless when the transaction is rolled
   back at process death, not harmless when the engine runs in autocommit mode,
@@ -129,16 +133,42 @@ def _stmt_table(statement) -> str | None:
         return None
 
 
+def _ddl_table(statement) -> str | None:
+    """object of a schema-changing statement (CREATE / DROP / ALTER), else None"""
+    try:
+        words = str(statement).replace('"', " ").replace("`", " ").split()
+        head = words[0].upper() if words else ""
+        if head not in ("CREATE", "DROP", "ALTER"):
+            return None
+        rest = [w for w in words[1:] if w.upper() not in ("TABLE", "INDEX", "UNIQUE", "IF", "NOT", "EXISTS", "TEMPORARY", "TEMP")]
+        name = rest[0].split("(")[0].split(".")[-1].lower() if rest else "?"
+        return name or "?"
+    except Exception:  # noqa: BLE001
+        return None
+
+
 def _before_cursor_execute(conn, cursor, statement, parameters, context, executemany) -> None:
     table = _stmt_table(statement)
     if table:
         point("stmt.before", table)
+        return
+    ddl = _ddl_table(statement)
+    if ddl:
+        point("ddl.before", ddl)
 
 
 def _after_cursor_execute(conn, cursor, statement, parameters, context, executemany) -> None:
     table = _stmt_table(statement)
     if table:
         point("stmt.after", table)
+        return
+    ddl = _ddl_table(statement)
+    if ddl:
+        point("ddl.after", ddl)
+
+
+def _on_connect(dbapi_connection, connection_record) -> None:
+    point("db.connect")
 
 
 def _install_events() -> None:
@@ -155,6 +185,7 @@ def _install_events() -> None:
     if not event.contains(Engine, "before_cursor_execute", _before_cursor_execute):
         event.listen(Engine, "before_cursor_execute", _before_cursor_execute)
         event.listen(Engine, "after_cursor_execute", _after_cursor_execute)
+        event.listen(Engine, "connect", _on_connect)
 
 
 _install_events()
